@@ -793,7 +793,15 @@ func propC15(c *Check) {
 			}
 			c.Violated("R2", "mature-range @ "+FuncKey(dm), p.Pos(dm.Pos()), "the sweep is not over (−∞, BlockTime]: "+s+" reason=not-established")
 		}
-		cl := p.Fn("x/locking/keeper.Keeper.DequeueMatureUnlocks$1")
+		var cl *ssa.Function
+		if len(dm.AnonFuncs) > 0 {
+			cl = dm.AnonFuncs[0]
+			for _, g := range dm.AnonFuncs {
+				if g.Signature.Results().Len() == 2 && g.Signature.Params().Len() == 2 {
+					cl = g // the (key, value) → (stop, error) callback of the walk
+				}
+			}
+		}
 		if cl == nil {
 			c.Violated("R2", "walk-callback @ "+FuncKey(dm), p.Pos(dm.Pos()), "walk callback not found reason=not-established")
 		} else {
@@ -801,6 +809,7 @@ func propC15(c *Check) {
 			rc := p.R(cl)
 			var ks, vs bool
 			stop := false
+			var kStores, vStores []ssa.Instruction
 			for _, b := range cl.Blocks {
 				for _, in := range b.Instrs {
 					switch x := in.(type) {
@@ -808,14 +817,30 @@ func propC15(c *Check) {
 						v := rc.E(x.Val)
 						if strings.HasPrefix(v, "append(") && strings.HasSuffix(v, ", [$0])") {
 							ks = true
+							kStores = append(kStores, in)
 						}
 						if strings.HasPrefix(v, "append(") && strings.HasSuffix(v, ", $1.Unlocks)") {
 							vs = true
+							vStores = append(vStores, in)
 						}
 					case *ssa.Return:
 						if rc.E(x.Results[0]) != "false" {
 							stop = true
 						}
+					}
+				}
+			}
+			// every visited entry is collected: no path through the callback returns without both appends
+			// (an entry that is skipped while the walk goes on is overtaken by later ones — or stranded)
+			isRet := func(in ssa.Instruction) bool { _, ok := in.(*ssa.Return); return ok }
+			for _, set := range [][]ssa.Instruction{kStores, vStores} {
+				if len(set) == 0 {
+					continue
+				}
+				if t, path := (&PathSearch{Fn: cl, AvoidInstr: instrSet(set), IsTarget: isRet, KeepFailureEntries: true}).Find(); t != nil {
+					if r0 := t.(*ssa.Return); len(r0.Results) == 2 && isNilConst(r0.Results[1]) {
+						ks, vs = false, false
+						c.Violated("R2", "walk-collects-every-visited-entry @ "+FuncKey(cl), p.InstrPos(t), "the walk callback can return (walk continues or ends normally) without collecting the visited entry: matured unlocks are overtaken by later ones or left behind", p.describePath(path)...)
 					}
 				}
 			}
